@@ -23,7 +23,7 @@ AL = f"{TS}.amount_tax_scale_like.AmountTaxScaleLike"
 
 
 class ScaleWorld:
-    def __init__(self, I, ctx, cls, second="rates", min_brackets=1):
+    def __init__(self, I, ctx, cls, second="rates", min_brackets=1, strict=True):
         self.n = ctx.fresh_int("n")
         self.L = ctx.fresh_int("L")
         ctx.assume(z3.And(self.n >= min_brackets, self.L >= 1))
@@ -31,7 +31,7 @@ class ScaleWorld:
         self.R = z3.Function(ctx.fresh_name("R"), z3.IntSort(), z3.RealSort())       # rates / amounts
         self.Bs = z3.Function(ctx.fresh_name("BASE"), z3.IntSort(), z3.RealSort())   # tax bases
         a, b = z3.Ints("a_t b_t")
-        ctx.assume(z3.ForAll([a, b], z3.Implies(z3.And(0 <= a, a < b, b < self.n), self.T(a) < self.T(b)),
+        ctx.assume(z3.ForAll([a, b], z3.Implies(z3.And(0 <= a, a < b, b < self.n), self.T(a) < self.T(b) if strict else self.T(a) <= self.T(b)),
                              patterns=[z3.MultiPattern(self.T(a), self.T(b))]))
         n, L = self.n, self.L
         self.thresholds = SymList(SeqVal(n, lambda k: Sym(self.T(B._z(k))), "thresholds"))
@@ -39,6 +39,30 @@ class ScaleWorld:
         self.base = nparr.NArr(L, lambda i: Sym(self.Bs(B._z(i))), "float", "tax_base")
         self.scale = Obj(I.resolve_qualified(cls), {"name": "scale", "option": None, "unit": None, "thresholds": self.thresholds,
                                                     second: self.values}, label="scale")
+
+
+def earlier_call_then_in_place_change(contract, I, ctx, a, w, second="rates"):
+    """history for the calc contracts: the same function was called on this scale object before, when its lists held other
+    thresholds / values (as many of them), and the lists were then changed in place (what multiply_rates / multiply_thresholds /
+    add_bracket on an existing threshold do). The call under verification must compute the scale as it is now."""
+    T0, R0 = fresh_fn0(ctx, "T_before"), fresh_fn0(ctx, "R_before")
+    x, y = z3.Ints("a_h b_h")
+    ctx.assume(z3.ForAll([x, y], z3.Implies(z3.And(0 <= x, x < y, y < w.n), T0(x) < T0(y)), patterns=[z3.MultiPattern(T0(x), T0(y))]))
+    now = (w.thresholds.seq, w.values.seq)
+    w.thresholds.seq = SeqVal(w.n, lambda k: Sym(T0(B._z(k))), "thresholds-before")
+    w.values.seq = SeqVal(w.n, lambda k: Sym(R0(B._z(k))), second + "-before")
+    f, _ = contract.target(I)
+    ctx.depth += 1
+    try:
+        I.inline_call(ctx, f, [], {k: v for k, v in a.items() if not k.startswith("__")})
+    finally:
+        ctx.depth -= 1
+    w.thresholds.seq, w.values.seq = now
+    ctx.ghost.pop("dotsums", None)
+
+
+def fresh_fn0(ctx, name):
+    return z3.Function(ctx.fresh_name(name), z3.IntSort(), z3.RealSort())
 
 
 def skolem(ctx, w):
@@ -60,6 +84,8 @@ class _CalcReplay:
     kind = ""
 
     def probes(self, case):
+        if isinstance(case, str) and case.endswith("in-place-change"):
+            return BRACKET_PROBES(self)
         out = []
         for t, v in (([0, 10, 20], [0.1, 0.2, 0.4]), ([5, 15], [1.0, 3.0]), ([0], [0.5]), ([2, 4, 6, 8], [0.0, 0.5, 0.25, 1.0])):
             bases = sorted(set([-1.0, 0.0] + [float(x) for x in t] + [x + 0.5 for x in t] + [x - 0.5 for x in t] + [100.0]))
@@ -92,14 +118,17 @@ class MarginalRateCalc(_CalcReplay, Contract):
     name = f"{MR}.calc"
     prop = ("C08",)
     top_level = True
-    cases = ("default-factor", "factor", "factor-and-rounding")
+    cases = ("default-factor", "factor", "factor-and-rounding", "default-factor-after-an-earlier-calc-and-an-in-place-change")
     descr = ("a marginal-rate scale returns, for each base, the sum over brackets of the rate times the part of the base inside the "
              "bracket (with a threshold factor: thresholds scaled by it; with rounding: scaled thresholds, parts and products each "
-             "rounded to the given decimals)")
+             "rounded to the given decimals) - of the scale as it is at the time of the call")
 
     def setup(self, I, ctx, case):
         w = ScaleWorld(I, ctx, MR)
         a = {"self": w.scale, "tax_base": w.base, "__w": w}
+        if case.endswith("in-place-change"):
+            earlier_call_then_in_place_change(self, I, ctx, a, w)
+            return a
         if case != "default-factor":
             f = ctx.fresh_real("factor")
             ctx.assume(f > 0)
@@ -110,6 +139,8 @@ class MarginalRateCalc(_CalcReplay, Contract):
         return a
 
     def probes(self, case):
+        if case.endswith("in-place-change"):
+            return BRACKET_PROBES(self)
         out = _CalcReplay.probes(self, case)
         if case == "factor-and-rounding":
             out = [dict(p, factor=1.5, decimals=0, thresholds=[0, 100.4, 200.3], values=[0.0, 1.0, 0.5], bases=[50.0, 151.0, 200.0, 301.0, 1000.0]) for p in out[:1]] + \
@@ -191,15 +222,19 @@ class LinearAverageCalc(_CalcReplay, Contract):
     name = f"{LA}.calc"
     prop = ("C08",)
     top_level = True
-    cases = ("several-brackets", "one-bracket")
+    cases = ("several-brackets", "one-bracket", "several-brackets-after-an-earlier-calc-and-an-in-place-change")
     descr = ("a linear-average-rate scale returns, for a base between two thresholds, the base times the rate linearly "
-             "interpolated between them")
+             "interpolated between them - of the scale as it is at the time of the call, also when calc was used before and the "
+             "scale was changed in place since")
 
     def setup(self, I, ctx, case):
-        w = ScaleWorld(I, ctx, LA, min_brackets=2 if case == "several-brackets" else 1)
+        w = ScaleWorld(I, ctx, LA, min_brackets=1 if case == "one-bracket" else 2)
         if case == "one-bracket":
             ctx.assume(w.n == 1)
-        return {"self": w.scale, "tax_base": w.base, "__w": w}
+        a = {"self": w.scale, "tax_base": w.base, "__w": w}
+        if case.endswith("in-place-change"):
+            earlier_call_then_in_place_change(self, I, ctx, a, w)
+        return a
 
     def post(self, I, ctx, a, out, old):
         w = a["__w"]
@@ -288,6 +323,25 @@ class ThresholdFromTaxBase(MarginalRates):
     field = staticmethod(lambda w: w.T)
 
 
+NATIVE_BRACKETS = "import sys; sys.path.insert(0, '/verif/native')\nimport c08_replay\noutcome = c08_replay.run_brackets(call)\n"
+
+
+def BRACKET_PROBES(self):
+    """bases off the (scaled) thresholds: at a base equal to a threshold the code's `factor + eps` puts it in the bracket below (stated
+    assumption eps = 0); with factors below and above one; plus the calc / in-place change / calc history"""
+    return [{"callee": self.name, "script": NATIVE_BRACKETS, "thresholds": [0, 1000, 2000, 8000], "values": [0.0, 0.1, 0.2, 0.45],
+             "bases": [600.0, 1200.0, 9000.0, 0.0, 1001.0, 4001.0, 499.0, 501.0], "factors": [1.0, 0.5, 2.0]},
+            {"callee": self.name, "script": NATIVE_BRACKETS, "thresholds": [10, 20], "values": [0.5, 0.25], "bases": [15.0, 25.0, 12.0, 41.0], "factors": [1.0, 2.0]}]
+
+
+def bracket_judge(nat):
+    if nat.get("kind") == "harness-error":
+        return "undecided", str(nat)[:300]
+    if nat["kind"] == "raise":
+        return "violates", "raised " + nat.get("exc", "") + ": " + nat.get("msg", "")
+    return ("satisfies", "as specified") if nat["value"].get("ok") else ("violates", "; ".join(nat["value"].get("mismatches", []))[:500])
+
+
 class BracketIndices(Contract):
     name = f"{RL}.bracket_indices"
     prop = ("C08",)
@@ -296,6 +350,12 @@ class BracketIndices(Contract):
              "bracket containing the base (lemma)")
 
     cases = (None, "factor-and-rounding")
+
+    def probes(self, case):
+        return BRACKET_PROBES(self)
+
+    def judge_native(self, I, case, call, nat):
+        return bracket_judge(nat)
 
     def setup(self, I, ctx, case):
         w = ScaleWorld(I, ctx, MR)
